@@ -882,6 +882,7 @@ func (g *gen) fixed() []History {
 		one(f("second", "s"), f("second", "another"), f("second", "another"), f("third", "t")),
 		one(f("a_1.go", "X"), f("a.go", "Y"), f("a.go", "Z")), // DESIGN §7 candidate
 		one(f("a.go", "X"), f("a_1.go", "Y"), f("a.go", "Z")),
+		one(f("a.go", "X"), f("a_1.go", "X"), f("a.go", "Y")), // Props.C12.witness
 		one(f("a.go", "X"), f("a.go", "Y"), f("a_1.go", "Z"), f("a.go", "Z"), f("a_1.go", "Z")),
 		one(up("p", "P")),
 		one(f("", "X"), up("p", "P")),
@@ -937,7 +938,9 @@ func run(dir string, seed uint64, tier string, part, parts int) error {
 	return nil
 }
 
-func replay(file string) error {
+// replay runs one recorded history (the "input" of a replay file) as a correspondence case and
+// through the oracle; results go to -dir like those of run.
+func replay(file, dir string) error {
 	b, err := os.ReadFile(file)
 	if err != nil {
 		return err
@@ -948,16 +951,11 @@ func replay(file string) error {
 	if err := json.Unmarshal(b, &doc); err != nil {
 		return err
 	}
-	var fails []vl.OracleFail
-	if f, _ := check(doc.Input); f != nil {
-		f.Key = key(doc.Input)
-		fails = append(fails, f.OracleFail)
+	g := &gen{r: vl.NewRng(1), out: vl.NewOut(dir)}
+	if doc.Input != nil {
+		g.emit(doc.Input, "replay")
 	}
-	js, _ := json.Marshal(fails)
-	if fails == nil {
-		js = []byte("[]")
-	}
-	fmt.Println(string(js))
+	g.out.Close()
 	return nil
 }
 
@@ -1153,7 +1151,7 @@ func main() {
 	case "run":
 		err = run(*dir, *seed, *tier, *part, *parts)
 	case "replay":
-		err = replay(*file)
+		err = replay(*file, *dir)
 	default:
 		err = fmt.Errorf("usage: c12 extract|run|replay")
 	}
